@@ -64,7 +64,7 @@ LooksLikeError(f) == WellFramed(f) /\ BodyLen(f) >= 1 /\ Body(f)[1] = 127      \
 ValidAcr122Rsp(f, code) ==
   /\ Len(f) >= 14
   /\ f[1] = 128
-  /\ f[2] + 256 * f[3] + 65536 * f[4] + 16777216 * f[5] = Len(f) - 10
+  /\ f[4] = 0 /\ f[5] = 0 /\ f[2] + 256 * f[3] = Len(f) - 10       \* dwLength, LE32 (frames < 64 KB; TLC ints are 32 bit)
   /\ f[11] = 213 /\ f[12] = (code + 1) % 256
   /\ f[Len(f) - 1] = 144 /\ f[Len(f)] = 0
 Acr122Payload(f) == SubSeq(f, 13, Len(f) - 2)
